@@ -76,6 +76,10 @@ func (r *Reshape) String() string {
 
 func processShape(newShape, currentShape []int) error {
 	for i := 0; i < len(newShape); i++ {
+		if newShape[i] < -1 {
+			return ops.ErrDimension("dim sizes smaller than -1 are not allowed")
+		}
+
 		if newShape[i] == 0 {
 			if i >= len(currentShape) {
 				return ops.ErrDimension("could not infer dim size")
